@@ -305,23 +305,43 @@ package internal
 //@   ensures hasArr(result) == dirsHas(ccText(header)) && valArr(result) == dirsVal(ccText(header))      # name: all-field-lines-parsed
 
 // the loop body of directivesSeq2: every directive name handed on is lower-case and non-empty
+// ... and is exactly: the lower-cased text before the first "=" of the list element with the
+// OWS-trimmed text after it as the argument, or the lower-cased trimmed element with an empty argument
 //@ fnparam directivesSeq2$1$1.yield(key, value)
 //@   requires key == lower(key) && len(key) > 0                              # name: directive-name-lower-cased
+//@   requires cutFound(arg0, "=") ==> key == lower(cutBefore(arg0, "=")) && value == trimOWS(cutAfter(arg0, "="))      # name: name-and-argument-split-at-the-first-equals
+//@   requires !cutFound(arg0, "=") ==> key == lower(trimOWS(arg0)) && value == ""                                     # name: bare-directive-has-an-empty-argument
 //@   pure
 //@ func directivesSeq2$1$1
 //@   property C12
 //@   requires jump$1 != nil && yield != nil && *yield != nil
 //@   assigns cell(jump$1)
-//@ extern strings.Cut(s, sep)
-//@   pure
 
 // unquote = ParseQuotedString (RFC 9110 §5.6.4); a no-cache directive is qualified iff its unquoted argument is non-empty
 //@ spec func unquote(s string) string
 //@ spec func unqualNoCacheA(hs Arr[string, bool], vs Arr[string, string]) bool = hs["no-cache"] && unquote(vs["no-cache"]) == ""
-//@ func ParseQuotedString
-//@   trusted
+// qdPlain(b): b may stand for itself inside a quoted-string (qdtext of RFC 9110 5.6.4, not the escape
+// character). plainQuoted(s): s is DQUOTE, such bytes only, DQUOTE.
+//@ spec func qdText(b byte) bool = b == 9 || b == 32 || b == 33 || (b >= 35 && b <= 91) || (b >= 93 && b <= 126) || b >= 128
+//@ spec func isQuoted(s string) bool = len(s) >= 2 && s[0] == 34 && s[len(s)-1] == 34
+//@ spec func plainQuoted(s string) bool = isQuoted(s) && (forall i int :: 1 <= i && i < len(s)-1 ==> qdText(s[i]))
+//@ func validQDTextByte
+//@   property C12
 //@   pure
-//@   ensures result == unquote(s)
+//@   ensures result == qdText(b)                                                   # name: qdtext-exactly
+//@ func ParseQuotedStringE
+//@   property C12
+//@   pure
+//@   ensures !isQuoted(s) ==> result1 != nil                                       # name: needs-both-quotes
+//@   ensures plainQuoted(s) ==> result1 == nil && result0 == s[1:len(s)-1]         # name: plain-content-is-returned-verbatim
+//@   loop 0 invariant 0 <= i && i <= len(in) && ((forall j int :: 0 <= j && j < i ==> qdText(in[j])) ==> sbc[&b] == strOf(elemsArr(in), sliceOff(in), i))
+//@   loop 0 decreases len(in) - i                                                  # name: unquoting-terminates   props: C10 C12
+//@ func ParseQuotedString
+//@   property C12 C02
+//@   pure
+//@   ensures result == unquote(s)                                                  # ghost-update
+//@   ensures !isQuoted(s) ==> result == s                                          # name: tokens-are-read-as-they-are
+//@   ensures plainQuoted(s) ==> result == s[1:len(s)-1]                            # name: plain-quoted-strings-lose-only-their-quotes
 //@ func (CCResponseDirectives).NoCache
 //@   property C02 C12
 //@   pure
@@ -656,6 +676,15 @@ package internal
 //@   property C11
 //@   requires r != nil && r.l != nil && r.clock != nil && r.ci != nil && r.ce != nil && r.siep != nil && r.rs != nil
 
+// every element TrimmedCSVCanonicalSeq hands on is the canonical header name of the list element it
+// was given (the element sequence itself is TrimmedCSVSeq's, trusted)
+//@ fnparam TrimmedCSVCanonicalSeq$1$1.yield(name)
+//@   requires name == canon(arg0)                                            # name: element-is-canonicalised   props: C04 C05 C02
+//@   pure
+//@ func TrimmedCSVCanonicalSeq$1$1
+//@   property C04 C05 C02
+//@   requires jump_S_1 != nil && yield != nil && *yield != nil
+//@   assigns cell(jump_S_1)
 //@ func TrimmedCSVCanonicalSeq
 //@   trusted
 //@   pure
@@ -669,7 +698,6 @@ package internal
 //@ spec func isHop(h http.Header, k string) bool = hopFixed(k) || connNamed(h, k)
 //@ func hopByHopHeaders
 //@   property C05
-//@   nosafety
 //@   pure
 //@   fresh
 //@   let ct = joinAll(respHeader, "Connection")
@@ -686,7 +714,6 @@ package internal
 //@ spec func omitted304(h http.Header, k string) bool = isHop(h, k) || k == "Content-Length"
 //@ func updateStoredHeaders
 //@   property C08 C05
-//@   nosafety
 //@   requires storedResp != nil && storedResp.Header != nil && resp != nil && resp.Header != nil && resp.Header != storedResp.Header
 //@   assigns map(storedResp.Header)
 //@   loop 0 invariant forall k string :: has(omitted, k) == omitted304(resp.Header, k)
@@ -789,15 +816,13 @@ package internal
 //@   pure
 //@ func normalizeVaryHeaderSeq2$1$1
 //@   property C04
-//@   nosafety
-//@   requires reqHeader != nil && yield != nil && jump_S_1 != nil
+//@   requires reqHeader != nil && yield != nil && *yield != nil && jump_S_1 != nil
 //@   assigns *
 //@ iface VaryKeyer.VaryKey(k, urlKey, varyHeaders)
 //@   pure
 //@   ensures result == keyFor(urlKey, varyHeaders)
 //@ func removeHopByHopHeaders
 //@   property C05 C06
-//@   nosafety
 //@   requires resp != nil && resp.Header != nil
 //@   assigns map(resp.Header)
 //@   loop 0 invariant forall k string :: has(resp.Header, k) == (old(has(resp.Header, k)) && !visited(k))
@@ -845,7 +870,6 @@ package internal
 //@   pure
 //@ func (Response).MarshalBinary
 //@   property C06 C05
-//@   nosafety
 //@   requires r.Data != nil
 //@   assigns r.Data.Body, bodyReadFailed
 //@   ensures result1 != nil ==> len(result0) == 0                    # name: no-bytes-on-error
